@@ -276,8 +276,30 @@ class Gen:
             t = ["tup", [self.term(r.choice([0, 1, 1, 2]), 0.6) for _ in range(n)]]
             if r.random() < 0.5:
                 s, t = t, s
-        elif k < 0.36:
+        elif k < 0.34:
             s, t = self.const(0.5), self.const(0.5)
+        elif k < 0.46 and k >= 0.4:
+            # function types over closed non-copyable inputs (linear and affine), flags flipped or not
+            ncs = [QUBIT, ["opq", "array", [INT, ["nat", 2]]], ["opq", "array", [QUBIT, ["nat", 1]]],
+                   ["tup", [QUBIT, INT]], ["opq", "Option", [QUBIT]], ["struct", "G", [["opq", "array", [BOOL, ["nat", 0]]]]]]
+            ins = [r.choice(ncs + [INT]) for _ in range(r.choice([1, 1, 2]))]
+            out = self.term(1, 0.4)
+            s = ["fun", [[x, self.flag(x)] for x in ins], out, 0]
+            t = ["fun", [[x, self.flag(x)] for x in ins], self.abstract(out, 0.3), 0]
+            if r.random() < 0.3:
+                s, t = ["tup", [s, self.tyvar()]], ["tup", [self.tyvar(), t]]
+        elif k < 0.4:
+            # const variables against const variables, some already solved
+            n = r.choice([1, 2, 2])
+            s = ["tup", [["opq", "array", [self.term(0, 0.5), self.const(0.8)]] for _ in range(n)]]
+            t = ["tup", [["opq", "array", [self.term(0, 0.5), self.const(0.6)]] for _ in range(n)]]
+            if r.random() < 0.5:
+                s, t = s[1][0], t[1][0]
+            st = {}
+            for v in r.sample(CVARS, r.choice([0, 1, 1, 2])):
+                st[TT.tl(v)] = self.const(0.6)
+            if acyclic(st):
+                return {"s": s, "t": t, "start": [[list_of(k2), v] for k2, v in st.items()]}
         else:
             base = self.term(r.randint(1, maxd), 0.2)
             s = self.abstract(base, r.choice([0.1, 0.2, 0.35]))
@@ -296,6 +318,22 @@ class Gen:
         """Program level: parameter types with variables against closed argument types."""
         r = self.r
         n = r.choice([1, 2, 2, 3])
+        if r.random() < 0.12:
+            # a function-typed parameter over a closed non-copyable input, flags equal or flipped
+            x = r.choice([QUBIT, ["opq", "array", [INT, ["nat", 2]]], ["tup", [QUBIT, INT]]])
+            out = r.choice([INT, NONE, BOOL])
+            p = ["fun", [[x, r.choice(["inout", "owned"])]], r.choice([out, TVARS[0]]), 0]
+            a = ["fun", [[x, r.choice(["inout", "owned"])]], out, 0]
+            return {"s": ["tup", [p]], "t": ["tup", [a]], "start": []}
+        if r.random() < 0.12:
+            # one const variable shared by two array parameters, lengths equal or not
+            cv = r.choice(CVARS)
+            e1, e2 = r.choice([INT, BOOL]), r.choice([INT, BOOL])
+            k1 = r.choice([1, 2, 3])
+            k2 = k1 if r.random() < 0.5 else r.choice([1, 2, 3])
+            ps = [["opq", "array", [r.choice([e1, TVARS[0]]), cv]], ["opq", "array", [r.choice([e2, TVARS[1]]), cv]]]
+            as_ = [["opq", "array", [e1, ["nat", k1]]], ["opq", "array", [e2, ["nat", k2]]]]
+            return {"s": ["tup", ps], "t": ["tup", as_], "start": []}
         for _ in range(50):
             params, args = [], []
             for _ in range(n):
